@@ -193,6 +193,44 @@ static void eval_u64(uint64_t idx, void *ctx) {
     free(y);
 }
 
+
+/* ---- equal keys at different addresses/alignments and of every length 0..72 (added after a seeded change in
+ * lookup3.inl's byte-at-a-time branch was missed): hashlittle2 has three code paths selected by the alignment of
+ * the key (32-bit, 16-bit, byte) and a 12-byte block loop, so "equal keys hash equally" must hold across
+ * alignments and across the block boundaries 12, 24, 36, 48, 60, 72. ---- */
+#define AL_MAXLEN 73
+static uint64_t total_align(void) { return (uint64_t)AL_MAXLEN * 8 * 8 * 2; }
+static void eval_align(uint64_t idx, void *ctx) {
+    (void)ctx;
+    BEE_ITEM(idx);
+    uint64_t x = idx;
+    unsigned nul = bee_digit(&x, 2), o2 = bee_digit(&x, 8), o1 = bee_digit(&x, 8);
+    size_t len = bee_digit(&x, AL_MAXLEN);
+    (void)nul;
+    V_COUNT("evaluations", 1);
+    if (len >= 12 && (o1 & 3) != (o2 & 3)) V_COUNT("nontrivial", 1); /* different lookup3 paths and >= one full block */
+    /* two separately allocated blocks, 8-byte aligned by malloc; the key sits at offset o1 / o2 and ends exactly at the
+     * end of the block, with its NUL terminator for the C-string form */
+    uint8_t *b1 = (uint8_t *)malloc(o1 + len + 1), *b2 = (uint8_t *)malloc(o2 + len + 1);
+    for (size_t i = 0; i < len; ++i) b1[o1 + i] = b2[o2 + i] = (uint8_t)(nul ? ('a' + (i * 7 + len) % 26) : (1 + (i * 37 + len * 11) % 255));
+    b1[o1 + len] = b2[o2 + len] = 0;
+    struct aws_byte_cursor c1 = aws_byte_cursor_from_array(b1 + o1, len), c2 = aws_byte_cursor_from_array(b2 + o2, len);
+    char desc[160];
+    snprintf(desc, sizeof(desc), "%zu-byte key at address offsets %u and %u (mod 8)", len, o1, o2);
+    BEE_CHECK(aws_byte_cursor_eq(&c1, &c2), "eq-matches-bytes", "%s: cursors with identical bytes compare unequal", desc);
+    uint64_t h1 = aws_hash_byte_cursor_ptr(&c1), h2 = aws_hash_byte_cursor_ptr(&c2);
+    BEE_CHECK(h1 == h2, "equal-keys-hash-differently:alignment", "aws_hash_byte_cursor_ptr: %s hash to %#llx and %#llx", desc, (unsigned long long)h1, (unsigned long long)h2);
+    h1 = aws_hash_byte_cursor_ptr_ignore_case(&c1);
+    h2 = aws_hash_byte_cursor_ptr_ignore_case(&c2);
+    BEE_CHECK(h1 == h2, "equal-keys-hash-differently:alignment", "aws_hash_byte_cursor_ptr_ignore_case: %s hash to %#llx and %#llx", desc, (unsigned long long)h1, (unsigned long long)h2);
+    h1 = aws_hash_c_string(b1 + o1);
+    h2 = aws_hash_c_string(b2 + o2);
+    BEE_CHECK(h1 == h2, "equal-keys-hash-differently:alignment", "aws_hash_c_string: %s hash to %#llx and %#llx", desc, (unsigned long long)h1, (unsigned long long)h2);
+    if (o1 != o2) table_check(aws_hash_byte_cursor_ptr, (aws_hash_callback_eq_fn *)aws_byte_cursor_eq, &c1, &c2, true, desc);
+    free(b1);
+    free(b2);
+}
+
 int main(int argc, char **argv) {
     v_init(argc, argv);
     aws_common_library_init(aws_default_allocator());
@@ -200,6 +238,7 @@ int main(int argc, char **argv) {
     bee_register("hasheq-c_string", total_pairs5, eval_cstr, 20);
     bee_register("hasheq-byte_cursor", total_pairs6, eval_cursor, 20);
     bee_register("hasheq-byte_cursor_ignore_case", total_pairs6, eval_cursor_ic, 20);
+    bee_register("hasheq-alignment", total_align, eval_align, 20);
     bee_register("hasheq-ptr", total_bound, eval_ptr, 20);
     bee_register("hasheq-uint64", total_bound, eval_u64, 20);
     return bee_main(argc, argv);
